@@ -51,7 +51,9 @@ ASSUME_BLOCK = [
 
 PROPS["C01"] = dict(
     module="Proofs.Properties.C01",
+    extra_modules=["Proofs.Properties.RegenPreds"],   # validator predicates regenerated from the Go source = the specification's (go2lean, tie R-fun)
     theorems=[
+        "Zrnt.Proofs.RegenPreds.isSlashable_eq", "Zrnt.Proofs.RegenPreds.isFullyWithdrawable_eq", "Zrnt.Proofs.RegenPreds.isPartiallyWithdrawable_eq",
         "Zrnt.Proofs.C01.zigzag_eq_sorted_inter",
         "Zrnt.Proofs.C01.zigzag_marker_witness",
         "Zrnt.Proofs.C01.zigzag_result_characterised",
@@ -87,6 +89,7 @@ PROPS["C01"] = dict(
         "Zrnt.Proofs.C01.stateTransition_eq",
         "Zrnt.Proofs.C01.processBlock_noOps_eq",
         "Zrnt.Proofs.C01.processBlock_exits_eq",
+        "Zrnt.Proofs.C01.processBlock_slashExit_eq",
         "Zrnt.Proofs.C01.ctx_frames",
         "Zrnt.Proofs.C01.sameCommittees_initiate",
     ],
